@@ -461,6 +461,7 @@ def gen_script_case(rng, idx):
     tick = rng.choice([0.25, 0.5, 1.0])
     raw = False
     lines = ['hue 120 saturation 50 brightness 50 kelvin 2700']
+    defs = []
     waits = []          # what each WAIT instruction will find in the time register
     works = []
     cur = ('D', False, 0.0)
@@ -493,12 +494,22 @@ def gen_script_case(rng, idx):
                 cur = ('D', False, secs)
         # else: keep the time register
         for _ in range(rng.randint(1, 2)):
-            lines.append(rng.choice(COMMANDS))
+            cmd = rng.choice(COMMANDS)
+            if rng.random() < 0.25:
+                # the command sits in a routine: the delay is taken there, when the routine is called
+                nm = 'rt%d' % len(defs)
+                if rng.random() < 0.5 and cmd.endswith('"light_1"'):
+                    defs.append('define %s with lt begin %s lt end' % (nm, cmd.split(' ')[0]))
+                    cmd = '%s "light_1"' % nm
+                else:
+                    defs.append('define %s begin %s end' % (nm, cmd))
+                    cmd = nm
+            lines.append(cmd)
             waits.append(cur)
             works.append(rng.choice([0.0, 0.0, 1 / 8, 0.5, 1.75, 4.0]))
             t_est += 200.0 if cur[0] == 'T' else max(float(cur[2]) / (1000.0 if cur[1] else 1.0), works[-1])
     L = rng.choice([0, 0, 30, 150])
-    return {'kind': 'script', 'tick': tick, 'script': '\n'.join(lines) + '\n', 'waits': waits, 'works': works,
+    return {'kind': 'script', 'tick': tick, 'script': '\n'.join(defs + lines) + '\n', 'waits': waits, 'works': works,
             'schedule': [rng.randrange(1 << 16) for _ in range(L)],
             'policy': POLICIES[idx % len(POLICIES)], 'pseed': rng.randrange(1 << 30)}
 
@@ -515,6 +526,9 @@ FIXED_SCRIPTS = [
     {'script': 'time 0 set all on all\n', 'waits': [('D', False, 0)] * 2, 'works': [1.0, 1.0]},
     {'script': 'time 1 set all time at 13:4* or 9:15 set all time 1.5 set all set all\n',
      'waits': [('D', False, 1), ('T', ['13:4*', '9:15']), ('D', False, 1.5), ('D', False, 1.5)], 'works': [0.0, 0.25, 2.5, 0.0]},
+    {'script': 'define blink with l begin on l off l end\ntime 2 blink "light_1" set all\n', 'waits': [('D', False, 2)] * 3, 'works': [0.0, 0.0, 0.0]},
+    {'script': 'define both begin set all on all end\nunits raw time 500 both time at 13:48 both\n',
+     'waits': [('D', True, 500), ('D', True, 500), ('T', ['13:48']), ('T', ['13:48'])], 'works': [0.0, 0.0, 0.0, 0.0]},
     {'script': 'time 2 set all units raw set all time 250 set all units logical set all\n',
      'waits': [('D', False, 2), ('D', True, 2000.0), ('D', True, 250), ('D', False, 0.25)], 'works': [0.0, 0.0, 0.0, 0.0]},
 ]
